@@ -5,6 +5,7 @@
 -/
 import Jence.Model.Search
 import Jence.Lemmas.NoKing
+import Jence.Lemmas.KeyTables
 namespace Jence.Props.C04
 open Jence
 
@@ -62,5 +63,26 @@ theorem history_key (g0 g : Game) (b0 : Board) (ms : List Move) (wf : Wf g0 b0) 
     claim) suffices, for any move word -/
 theorem moveOk_key (g g' : Game) (m : Move) (hkey : g.key = scratchKey g) (ok : MoveOk g m) (hmk : makeCore g m = some g') :
     g'.key = scratchKey g' := makeCore_key g g' m hkey ok hmk
+
+/-- **T4.4a** The key tables contain no zero and no repeated entry: the 849 keys (768 piece keys, 64 en-passant keys, 16
+    castling keys, the side key), as the model computes them from the generated seeds with the engine's xorshift
+    generator, are pairwise distinct and non-zero (kernel-decided; the harness compares the same 849 values with the
+    running binary's dump on every run). -/
+theorem key_tables_no_zero_no_repeat : allKeys.Nodup ∧ (0 : UInt64) ∉ allKeys ∧ allKeys.length = 849 ∧
+    PIECE_KEYS_FLAT.toList ++ ENPASSANT_KEYS.toList ++ CASTLE_KEYS.toList ++ [SIDE_KEY] = allKeys :=
+  ⟨key_tables_sound.1, key_tables_sound.2.1, key_tables_sound.2.2, tables_are_allKeys⟩
+
+/-- **T4.4b** Positions that differ only by a quiet move never share a key: moving one piece to another square changes
+    the placement part of the key by two different table entries. -/
+theorem quiet_move_never_shares_key (k : UInt64) (p a b : Nat) (hp : p < 12) (ha : a < 64) (hb : b < 64) (hab : a ≠ b) :
+    k ^^^ pieceKey p a ^^^ pieceKey p b ≠ k := quiet_move_changes_key k p a b hp ha hb hab
+
+/-- **T4.4c** … nor by a simple capture: the mover's two keys and the victim's key never cancel (all 12 x 64 x 64 x 12
+    combinations, kernel-decided on the tables). -/
+theorem simple_capture_never_shares_key (k : UInt64) (p a b v : Nat) (hp : p < 12) (ha : a < 64) (hb : b < 64) (hv : v < 12) :
+    k ^^^ pieceKey p a ^^^ pieceKey p b ^^^ pieceKey v b ≠ k := simple_capture_changes_key k p a b v hp ha hb hv
+
+/-- **T4.4d** … nor by the side to move. -/
+theorem side_to_move_never_shares_key (k : UInt64) : k ^^^ SIDE_KEY ≠ k := side_switch_changes_key k
 
 end Jence.Props.C04
